@@ -8,7 +8,7 @@
   Models: Mpir/Model/AllocSafeMpz.lean (com, tdiv_q_2exp), Mpir/Model/AllocSafeMpz2.lean (and, ior, xor, mul_ui).
   Tied by ops `as_com`, `as_tdiv_q_2exp` (part c04_allocsafe) and `as2_and`, `as2_ior`, `as2_xor`, `as2_mul_ui`
   (harness/ops_allocsafe2.c; ALLOC SIZ value compared exactly) and pins on every C file mirrored.
-  mpz_ior is mirrored and tied (every sign case, every alias mode) but has no theorem yet.
+  mpz_ior is mirrored and tied in every sign case and alias mode; its theorem is `_partial` (both operands non-negative).
 -/
 import MpirProofs.Props.C04_allocsafe
 import MpirProofs.Props.C10
@@ -16,6 +16,7 @@ import MpirProofs.Lemmas.AllocSafeSpec
 import MpirProofs.Lemmas.AllocSafeLogic
 import MpirProofs.Lemmas.AllocSafeMul
 import MpirProofs.Lemmas.AllocSafeXor
+import MpirProofs.Lemmas.AllocSafeIor
 import MpirProofs.Props.C01_mpz
 namespace Mpir.AllocSafe
 open Mpir
@@ -122,6 +123,45 @@ example : view ((mpz_xor ⟨fun i => if i = 0 then ⟨2, 0, ⟨2, [B - 1, B - 1]
 -- negative: `res_alloc = MAX (op1_size, op2_size)` without the `+ 1` in the +- case — the carry store is outside the block
 example : (xor_ true 0 ⟨fun i => if i = 0 then ⟨2, 0, ⟨2, [B - 1, B - 1]⟩⟩ else ⟨-1, 0, ⟨1, [1]⟩⟩, true⟩ 0 0 1).ok = false := by
   decide
+
+/-- mpz_ior (mpz/ior.c), PARTIAL: both operands non-negative (ior.c:46-85: `_mpz_realloc (res, MAX size)`, the
+    `if (res_ptr != op1_ptr) MPN_COPY` of the in-place case, the pointers re-read after the realloc).  Full statement: the same
+    without `h1 h2`, with the allocation of the other sign cases (`MIN` limbs for --, `op2_size` for +-) in place of `max`;
+    missing: the refinement proofs of `ior_nn` (ior.c:106-153) and `ior_pn` (ior.c:176-234) — the models are there
+    (Mpir/Model/AllocSafeMpz2.lean) and tied by op `as2_ior` in all sign cases. -/
+theorem mpz_ior_alloc_safe_partial (s : St) (w u v : Nat) (hs : s.ok = true)
+    (hw : OWF (s.h w)) (hu : OWF (s.h u)) (hv : OWF (s.h v)) (h1 : 0 ≤ (s.h u).size) (h2 : 0 ≤ (s.h v).size) :
+    Safe s (mpz_ior s w u v) w
+      (ofZ (Mpz.grow (view (s.h w)) (max (s.h u).size.natAbs (s.h v).size.natAbs)).alloc
+        (Bits.mpz_ior (zOf (view (s.h u))) (zOf (view (s.h v))))) ∧
+    Mpz.toInt (view ((mpz_ior s w u v).h w)) = Int.lor (Mpz.toInt (view (s.h u))) (Mpz.toInt (view (s.h v))) := by
+  have R0 := ior_pp_refines s w u v hs hw hu hv
+  have h1' : ¬ (s.h u).size < 0 := by omega
+  have h2' : ¬ (s.h v).size < 0 := by omega
+  have em : mpz_ior s w u v = ior_pp true s w u v (s.h u).size.natAbs (s.h v).size.natAbs := by
+    simp [mpz_ior, ior_, St.SIZ, h1, h2]
+  have ez : Bits.mpz_ior (zOf (view (s.h u))) (zOf (view (s.h v))) = Bits.iorPP (view (s.h u)).d (view (s.h v)).d := by
+    have e1 : (view (s.h u)).size = (s.h u).size := rfl
+    have e2 : (view (s.h v)).size = (s.h v).size := rfl
+    simp [Bits.mpz_ior, zOf, e1, e2, h1', h2']
+  rw [em, ez]
+  obtain ⟨hval, hzwf⟩ := Bits.mpz_ior_spec (zOf (view (s.h u))) (zOf (view (s.h v))) (zOf_WF hu.2) (zOf_WF hv.2)
+  rw [ez] at hval hzwf
+  have hlen : (Bits.iorPP (view (s.h u)).d (view (s.h v)).d).mag.length ≤ max (s.h u).size.natAbs (s.h v).size.natAbs := by
+    have hA := view_d_length hu
+    have hB := view_d_length hv
+    unfold Bits.iorPP Bits.ior_n
+    split <;> simp <;> omega
+  have E := ofZ_spec (Mpz.grow (view (s.h w)) (max (s.h u).size.natAbs (s.h v).size.natAbs)).alloc _ hzwf
+    (Nat.le_trans hlen (Mpz.grow_alloc _ _).1) (Nat.le_trans hw.2.1 (Mpz.grow_alloc _ _).2)
+  refine ⟨R0.safe E.1, ?_⟩
+  rw [R0.view, E.2, hval, zOf_toInt, zOf_toInt]
+
+-- (B^2-1) | 1 in place on the longer operand (no copy: `res_ptr == op1_ptr`) and on the shorter one (block grown 1 → 2)
+example : (mpz_ior ex 1 1 2).ok = true ∧ view ((mpz_ior ex 1 1 2).h 1) = ⟨2, 2, [B - 1, B - 1]⟩ := by decide
+example : (mpz_ior ex 2 1 2).ok = true ∧ view ((mpz_ior ex 2 1 2).h 2) = ⟨2, 2, [B - 1, B - 1]⟩ := by decide
+-- negative: op2_ptr NOT re-read after `_mpz_realloc` with res == op2 (the shorter operand, whose block is replaced)
+example : (ior_ false ex 2 1 2).ok = false := by decide
 
 /-- mpz_mul_ui (mpz/mul_i.h): `MPZ_REALLOC (prod, size + 1)` covers `pp[size] = cy`, also in place; exact product. -/
 theorem mpz_mul_ui_alloc_safe (s : St) (w u : Nat) (v : Nat) (hs : s.ok = true)
